@@ -173,7 +173,11 @@ func genC05(t *rapid.T) c05Case {
 		}
 		return map[string]any{"file": relFile(files[k], files[k-1]), "service": baseName(k - 1)}
 	}
-	// (A) distributed
+	// (A) distributed (sometimes written in another YAML style: flow collections, anchors and aliases)
+	styleSeed := 0
+	if rapid.IntRange(0, 2).Draw(t, "styled") == 0 {
+		styleSeed = rapid.IntRange(1, 1<<20).Draw(t, "style")
+	}
 	docs := map[string]map[string]any{}
 	get := func(f string) map[string]any {
 		if docs[f] == nil {
@@ -204,7 +208,7 @@ func genC05(t *rapid.T) c05Case {
 		get(files[k])["services"].(map[string]any)[n] = s
 	}
 	for f, d := range docs {
-		cs.Distributed = append(cs.Distributed, memFile{Name: f, Content: emitYAML(d, nil)})
+		cs.Distributed = append(cs.Distributed, memFile{Name: f, Content: emitYAMLStyled(d, nil, styleSeed)})
 	}
 	// env / label files next to every file that may reference them
 	for _, dir := range []string{"", "sub", "sub/deeper", "../proj-shared"} {
